@@ -7,7 +7,10 @@ V = Path(__file__).resolve().parent.parent
 
 BASE_NOTE = ("Trusted: Lean 4.33 kernel + Mathlib lemmas; axioms propext/Classical.choice/Quot.sound only; "
              "kernel translator and line-protocol correspondence harness tie the model to /repo's "
-             "working tree on every run; exact arithmetic in theorems, IEEE rounding only observed. ")
+             "working tree on every run; exact arithmetic in theorems, IEEE rounding only observed. "
+             "Hand-transcribed control flow is compared with the source in a normal form on every run (transcription tie) and "
+             "state carried between calls is a regenerated Lean obligation (Props/StateCarry.lean): a function that no longer "
+             "reads as transcribed, or new carried state, is a broken tie (deep search, else no-failing-input-found). ")
 
 CHECKS = {
  "C02": dict(
@@ -353,7 +356,7 @@ def main():
         "engines": [{"name": "lean4-proof+correspondence", "path": "lean/ harness/",
                      "serves_properties": sorted(CHECKS),
                      "kind_free_text": "Lean 4 models + theorems (lake project lean/), Python-AST kernel "
-                     "translator regenerating lean/TopSearch/Gen on every run, line-protocol "
+                     "translator regenerating lean/TopSearch/Gen on every run (incl. transcription tie and carried-state analysis), line-protocol "
                      "correspondence drivers lean/Drivers/*.lean, direct property predicates for replays"}],
         "checks": checks,
         "not_applicable": na,
